@@ -7,7 +7,8 @@ EXTENDS Integers, FiniteSets, Sequences, TLC
 CONSTANTS NTasks,       \* microtasks 1..NTasks
           P1, P2, P3, P4, P5, P6, \* priority of task i: "high" | "med" | "low"
           Threshold,    \* concurrency limit (>= 2)
-          AllowTimeout  \* whether max-delay expiry is explored
+          AllowTimeout, \* whether max-delay expiry is explored
+          QCap          \* capacity of each clearance queue (GOMAXPROCS * 100 in the code)
 
 Tasks == 1..NTasks
 Prio == [t \in Tasks |-> CASE t = 1 -> P1 [] t = 2 -> P2 [] t = 3 -> P3 [] t = 4 -> P4 [] t = 5 -> P5 [] OTHER -> P6]
@@ -36,7 +37,9 @@ SubmitHigh(t) == /\ tpc[t] = "new" /\ Prio[t] = "high"
                  /\ tpc' = [tpc EXCEPT ![t] = "ready"]
                  /\ UNCHANGED <<modCnt, medQ, lowQ, cleared, spc, sgrant, timedOut, runs>>
 
+\* the clearance queue is a bounded channel: a request blocks while it is full ...
 Request(t) == /\ tpc[t] = "new" /\ Prio[t] # "high"
+              /\ Len(IF Prio[t] = "med" THEN medQ ELSE lowQ) < QCap
               /\ IF Prio[t] = "med" THEN medQ' = Append(medQ, t) /\ UNCHANGED lowQ
                                     ELSE lowQ' = Append(lowQ, t) /\ UNCHANGED medQ
               /\ tpc' = [tpc EXCEPT ![t] = "waiting"]
@@ -51,6 +54,14 @@ WaitTimeout(t) == /\ AllowTimeout /\ tpc[t] = "waiting" /\ t \notin cleared
                   /\ tpc' = [tpc EXCEPT ![t] = "ready"]
                   /\ timedOut' = timedOut \cup {t}
                   /\ UNCHANGED <<count, modCnt, medQ, lowQ, cleared, spc, sgrant, runs>>
+
+\* ... and if it is still full when the max delay expires the microtask starts without clearance and counts itself
+SubmitTimeout(t) == /\ AllowTimeout /\ tpc[t] = "new" /\ Prio[t] # "high"
+                    /\ Len(IF Prio[t] = "med" THEN medQ ELSE lowQ) >= QCap
+                    /\ count' = count + 1
+                    /\ tpc' = [tpc EXCEPT ![t] = "ready"]
+                    /\ timedOut' = timedOut \cup {t}
+                    /\ UNCHANGED <<modCnt, medQ, lowQ, cleared, spc, sgrant, runs>>
 
 Begin(t) == /\ tpc[t] = "ready"
             /\ modCnt' = modCnt + 1
@@ -84,7 +95,7 @@ SchedCount == /\ spc = "grant"
               /\ UNCHANGED <<tpc, modCnt, medQ, lowQ, cleared, timedOut, runs>>
 
 Next == \/ SchedGrant \/ SchedCount
-        \/ \E t \in Tasks : SubmitHigh(t) \/ Request(t) \/ GotClearance(t) \/ WaitTimeout(t) \/ Begin(t) \/ EndMod(t) \/ EndGlobal(t)
+        \/ \E t \in Tasks : SubmitHigh(t) \/ Request(t) \/ SubmitTimeout(t) \/ GotClearance(t) \/ WaitTimeout(t) \/ Begin(t) \/ EndMod(t) \/ EndGlobal(t)
 
 Spec == Init /\ [][Next]_vars /\ WF_vars(Next)
 
